@@ -43,11 +43,12 @@ type ContCase struct {
 	Workers          int
 	Limit            uint32 // collision limit (0 = leave default)
 	SetLimit         bool
-	HipClasses       uint64 // > 0: colliding hash-input provider (Callbacks.HipClasses) under the default digester
-	BatchStart       int    // > 0: the root starts as a container built by the batch constructor from that many generated scalars
-	DrainedIsOneSlab bool   // C09: after DrainAtEnd the container must occupy exactly one slab and nothing else may remain
-	DrainAtEnd       bool   // after the phases: remove every element one by one (no bulk pop), then regrow a little
-	Temp             bool   // root at the temporary address
+	HipClasses       uint64                     // > 0: colliding hash-input provider (Callbacks.HipClasses) under the default digester
+	BatchStart       int                        // > 0: the root starts as a container built by the batch constructor from that many generated scalars
+	DrainedIsOneSlab bool                       // C09: after DrainAtEnd the container must occupy exactly one slab and nothing else may remain
+	DrainAtEnd       bool                       // after the phases: remove every element one by one (no bulk pop), then regrow a little
+	Temp             bool                       // root at the temporary address
+	Init             func(w *World, root *Node) // called once, right after the root has been created (before the first operation)
 	Final            func(w *World, root *Node, res *CaseResult)
 	PerOp            func(w *World, root *Node) error
 	AfterCommit      func(w *World, root *Node) error
@@ -126,6 +127,9 @@ func runContainerCase(c *CaseCtx, cc *ContCase) (*CaseResult, *World, *Node) {
 	}
 	w.AddRoot(root)
 	w.logOp("create root %s slab=%d", root, cc.Slab)
+	if cc.Init != nil {
+		cc.Init(w, root)
+	}
 	hist := cc.Hist
 	phases := cc.Phases
 	if phases == nil {
